@@ -525,6 +525,8 @@ def generate(rng, seed, tier='quick'):
                 pfx = [rng.choice(['a', 'b', 'c', 'd', 'seg=1', 'v=2', '%00', '32=x', 'KEY']) for _ in range(rng.randint(1, 3))]
                 if rng.random() < 0.08:
                     pfx = []            # the root prefix "/"
+                elif rng.random() < 0.06:
+                    pfx = pfx + [rng.choice(['L' * 240, 'L' * 251, 'M' * 300, 'N' * 70000])]     # a long prefix: lengths of 3 and 5 octets
                 if tuple(pfx) not in used:
                     break
             used.add(tuple(pfx))
@@ -600,6 +602,10 @@ def generate(rng, seed, tier='quick'):
         if rng.random() < 0.5:
             # a route declared while connected: registered at once, and again on every later connection
             ops.append({'at': t_rc, 'op': 'route', 'prefix': ['s', rng.choice(['x', 'y'])]})
+            t_rc += 40000 + rng.choice([0, 1, 5000])
+        if rng.random() < 0.3:
+            # the application withdraws a prefix that lies ABOVE its declared routes: they are routes of their own
+            ops.append({'at': t_rc, 'op': 'unregister', 'cid': 90, 'prefix': ['r']})
             t_rc += 40000 + rng.choice([0, 1, 5000])
         mid = False
         if len(routes_before) >= 2 and rng.random() < 0.3:
